@@ -10,6 +10,7 @@ import (
 	"context"
 	"time"
 
+	"github.com/honeycombio/refinery/collect/cache"
 	"github.com/honeycombio/refinery/types"
 )
 
@@ -69,4 +70,10 @@ func (i *InMemCollector) VerifC01SamplerCount(w int) int { return len(i.workers[
 // that the single sender goroutine has finished everything queued before it.
 func (i *InMemCollector) VerifC01Barrier(tr *types.Trace) {
 	i.tracesToSend <- sendableTrace{Trace: tr}
+}
+
+// VerifC01DropQueueLen exports how many drop decisions of worker w are still queued for its
+// dropped-trace filter.
+func (i *InMemCollector) VerifC01DropQueueLen(w int) int {
+	return cache.VerifC01DropQueueLen(i.workers[w].sampleCache)
 }
